@@ -556,3 +556,174 @@ macro_rules! selfping_inst {
 selfping_inst!(c14_self_ping_refused_awaiting_pong = STAGE_PONG, c14_self_ping_refused_awaiting_peng = STAGE_PENG,
                c14_self_ping_refused_lingering = WAITING_TO_CLOSE, c14_self_ping_refused_closing = CLOSING);
 
+
+/// C05, recovery mechanism: a verified ping of a FOREIGN node that arrives late or as a duplicate - the object is no
+/// longer waiting for a ping - is answered by repeating the stored last datagram byte-identically (the responder's pong
+/// while it awaits the peng; the initiator's peng while it lingers after success), without building a new message,
+/// without touching stage, keys or the stored datagram; a closing object stays silent. This is what lets the peer
+/// finish after ITS copy of the answer was lost.
+fn late_ping_in_stage(stage: u8) {
+    let node_id: NodeId = kani::any();
+    let last: [u8; 3] = kani::any();
+    let kp = Ed25519KeyPair::from_seed_unchecked(&[7u8; 32]).unwrap();
+    let tk: VArc<[Ed25519PublicKey]> = VArc::new([[0u8; 32]]);
+    let mut st: InitState<NoPayload> = InitState::new(node_id, NoPayload, VArc::new(kp), tk, mk_algos(2, false, &[1.0, 2.0, 3.0], false));
+    st.next_stage = stage;
+    st.last_message = Some(vec![last[0], last[1], last[2]]);
+    let h: [u8; SALTED_NODE_ID_HASH_LEN] = kani::any();
+    // a foreign node: neither the own salted hash nor a salted hash of the own node id
+    kani::assume(h != st.salted_node_id_hash);
+    kani::assume(!st.check_salted_node_id_hash(&h, node_id));
+    unsafe {
+        RF_KIND = 1;
+        RF_HASH = h;
+        RF_SHAPE = 2;
+        SENT_STAGE = 0;
+    }
+    let mut out = MsgBuffer::new(100);
+    out.set_length(40);
+    let res = st.handle_init(&mut out);
+    match res {
+        Ok(r) => {
+            assert!(matches!(r, InitResult::Continue));
+            std::mem::forget(r);
+        }
+        Err(e) => {
+            std::mem::forget(e);
+            assert!(false, "a late ping ended the handshake object");
+        }
+    }
+    if stage == CLOSING {
+        assert!(out.is_empty());
+    } else {
+        assert!(out.len() == 3);
+        let m = out.message();
+        assert!(m[0] == last[0] && m[1] == last[1] && m[2] == last[2]);
+    }
+    assert!(unsafe { SENT_STAGE } == 0 && st.next_stage == stage && st.crypto.is_none());
+    match &st.last_message {
+        Some(v) => assert!(v.len() == 3 && v[0] == last[0] && v[1] == last[1] && v[2] == last[2]),
+        None => assert!(false),
+    }
+    std::mem::forget(st);
+    witness!();
+}
+macro_rules! lateping_inst {
+    ($($name:ident = $st:expr),*) => {$(
+        #[cfg_attr(kani, kani::proof, kani::unwind(34), kani::stub(crate::crypto::init::InitMsg::read_from, read_from_verified),
+                   kani::stub(crate::crypto::init::InitState::send_message, send_message_recorder))]
+        pub fn $name() {
+            late_ping_in_stage($st)
+        }
+    )*};
+}
+lateping_inst!(c05_late_ping_awaiting_peng_repeats_pong = STAGE_PENG, c05_late_ping_lingering_repeats_peng = WAITING_TO_CLOSE,
+               c05_late_ping_closing_is_silent = CLOSING);
+
+// ============================================================================== C06 / C16: the cipher list on the wire
+include!(concat!(env!("VH_GEN"), "/extracted_init.rs"));
+
+fn algo_by_id(id: u8) -> &'static Algorithm {
+    match id {
+        1 => &AES_128_GCM,
+        2 => &AES_256_GCM,
+        _ => &CHACHA20_POLY1305,
+    }
+}
+/// The cipher list a node offers reaches its peer exactly as offered: the writer arm of InitMsg::write_to followed by
+/// the reader arm of InitMsg::read_from (both extracted) returns the same ciphers in the same order with bit-identical
+/// speeds and the same allow-unencrypted flag - for every list of `n` ciphers in ANY order (repetitions included) and
+/// any speed bit patterns. Both ends run select_algorithm over (own list, received list): if a list is altered in
+/// transit by the codec, the two ends no longer evaluate the same function arguments (C06).
+fn algorithms_part_roundtrip(n: usize, allow: bool) {
+    let ids: [u8; 3] = kani::any();
+    let bits: [u32; 3] = kani::any();
+    let mut speeds: SmallVec<[(&'static Algorithm, f32); 3]> = SmallVec::new();
+    let mut i = 0;
+    while i < n {
+        kani::assume(ids[i] >= 1 && ids[i] <= 3);
+        speeds.push((algo_by_id(ids[i]), f32::from_bits(bits[i])));
+        i += 1;
+    }
+    let a = Algorithms { algorithm_speeds: speeds, allow_unencrypted: allow };
+    let mut buf = [0u8; 24];
+    let written = match InitMsg::x_write_algorithms_part(&a, &mut buf) {
+        Ok(w) => w,
+        Err(e) => {
+            std::mem::forget(e);
+            assert!(false, "writer failed");
+            return;
+        }
+    };
+    let body = n * 5 + if allow { 5 } else { 0 };
+    assert!(written == 3 + body);
+    assert!(buf[0] == InitMsg::PART_ALGORITHMS && buf[1] == 0 && buf[2] as usize == body);
+    let got = match InitMsg::x_read_algorithms_part(&buf[3..3 + body], body) {
+        Ok(g) => g,
+        Err(e) => {
+            std::mem::forget(e);
+            assert!(false, "reader failed on the writer's output");
+            return;
+        }
+    };
+    assert!(got.is_some());
+    let g = got.unwrap();
+    assert!(g.allow_unencrypted == allow);
+    assert!(g.algorithm_speeds.len() == n);
+    let mut i = 0;
+    while i < n {
+        let (al, sp) = g.algorithm_speeds[i];
+        assert!(al == algo_by_id(ids[i]));
+        assert!(sp.to_bits() == bits[i]);
+        i += 1;
+    }
+    vcover!(n >= 2 && ids[0] > ids[1], "descending_list");
+    vcover!(n >= 2 && ids[0] == ids[1], "repeated_cipher");
+    std::mem::forget(g);
+    std::mem::forget(a);
+    witness!();
+}
+macro_rules! algopart_inst {
+    ($($name:ident = ($n:expr, $allow:expr)),*) => {$(
+        #[cfg_attr(kani, kani::proof, kani::unwind(8))]
+        pub fn $name() {
+            algorithms_part_roundtrip($n, $allow)
+        }
+    )*};
+}
+algopart_inst!(c06_cipher_list_on_the_wire_n0_t = (0, true), c06_cipher_list_on_the_wire_n1_f = (1, false),
+               c06_cipher_list_on_the_wire_n2_f = (2, false), c06_cipher_list_on_the_wire_n2_t = (2, true),
+               c06_cipher_list_on_the_wire_n3_f = (3, false), c06_cipher_list_on_the_wire_n3_t = (3, true));
+
+/// C16 (totality of the same reader arm): on ARBITRARY bytes - `have` bytes present, the length field claiming `claimed` -
+/// it ends with a list of at most claimed/5 ciphers or the parse error, never a panic.
+fn algorithms_part_total(have: usize, claimed: usize) {
+    let bytes: [u8; 16] = kani::any();
+    match InitMsg::x_read_algorithms_part(&bytes[..have], claimed) {
+        Ok(g) => {
+            assert!(have >= (claimed / 5) * 5);
+            assert!(g.is_some());
+            let g = g.unwrap();
+            assert!(g.algorithm_speeds.len() <= claimed / 5);
+            std::mem::forget(g);
+        }
+        Err(e) => {
+            assert!(have < (claimed / 5) * 5);
+            assert!(matches!(e, Error::Parse(_)));
+            std::mem::forget(e);
+        }
+    }
+    witness!();
+}
+#[cfg_attr(kani, kani::proof, kani::unwind(8))]
+pub fn c16_cipher_list_decode_total_15_of_15() {
+    algorithms_part_total(15, 15)
+}
+#[cfg_attr(kani, kani::proof, kani::unwind(8))]
+pub fn c16_cipher_list_decode_total_12_of_14() {
+    algorithms_part_total(12, 14)
+}
+#[cfg_attr(kani, kani::proof, kani::unwind(8))]
+pub fn c16_cipher_list_decode_total_7_of_10() {
+    algorithms_part_total(7, 10)
+}
